@@ -48,7 +48,7 @@ def run(chk, scratch):
     chk.cov["loads_with_invalidated_field"] = sum(1 for e in loads if e["invalid"])
     chk.cov["prefixes_for_environment_names"] = sorted({e["prefix"] for e in ev if e["op"] == "EnvNames"})
     chk.sample({"load": {k: loads[0][k] for k in ("prefix", "subjects", "invalid", "err")}})
-    chk.cov["rule"] = ("scenario = one or two leaf fields of a three-level structure (string, int, duration, float; keys with and without '_') x the subset of {explicit flag, environment variable, "
+    chk.cov["rule"] = ("scenario = one or two leaf fields of a three-level structure (string, int, duration, float; keys with '_', '-' and digits) x the subset of {explicit flag, environment variable, "
                        "file, default structure, flag default} holding a (distinct, non-empty) value x a required field emptied at depth 1..3 x prefix spelling; real viper session, pflag set bound with "
                        "BindFlagToEnv (name with or without the prefix), process environment, YAML or JSON file; per prefix the names of DetermineConfigurationEnvironmentVariables are set one by one; "
                        "non-trivial = more than one source present or a field invalidated")
